@@ -202,10 +202,25 @@ def _match_mulconst(cn, an, S):
     return None
 
 
+def _bit_test(c):
+    """truth value of the int c.  For c = (x >> k) & 1 with x >= 0 the test is written on x at its full width
+    ((x | ~(1 << k)) == all ones) so that x is lowered at one width only (the engine lowers on demand at minimal widths; a
+    30-bit state tested bit by bit would otherwise be built at ten different widths per loop iteration)"""
+    n = c.n
+    if n.op == "and" and core.is_const(n.args[1]) and n.args[1].args[0] == 1:
+        x, k = n.args[0], 0
+        if x.op == "shr":
+            x, k = x.args[0], x.args[1]
+        if x.lo >= 0 and k < x.U:
+            full = (1 << x.U) - 1
+            return wrapb(core.b_cmp("eq", core.n_bit("or", x, core.const(full ^ (1 << k))), core.const(full)))
+    return c != 0
+
+
 def sx_ite(c, a, b):
     """conditional expression without a fork (the rewritten `a if c else b` of rs1024_polymod / interpolate)"""
     if isinstance(c, SI):
-        c = (c != 0)
+        c = _bit_test(c)
     if isinstance(c, SB):
         if GF_REWRITE[0] and isinstance(a, SI) and isinstance(b, int) and b == 0:
             m = _match_mulconst(c.n, a.n, _STATE["S"])
@@ -959,3 +974,147 @@ def replay_rs(w):
         return {"violated": bad, "observed": f"polymod(shamir+{p}+{t}) = {whole:#x} (reference {ref:#x}), folded {folded:#x}; with error {e}: {moved:#x} vs "
                                              f"{whole ^ lin:#x}"}
     raise KeyError(k)
+
+
+def _rs_cols(nwords, p):
+    """columns of the syndrome map of word position p of an nwords-word share: D_p(1 << i), computed by concrete runs of the
+    (current) rs1024_polymod: D_p(e) = polymod(shamir + zeros with e at p) ^ polymod(shamir + zeros)"""
+    real = _STATE["real_polymod"]
+    base = real(list(CS) + [0] * nwords)
+    cols = []
+    for i in range(10):
+        v = [0] * nwords
+        v[p] = 1 << i
+        cols.append(real(list(CS) + v) ^ base)
+    return cols
+
+
+def _mat_apply(cols, e):
+    """XOR of the columns selected by the bits of e, written with shifts and xors only"""
+    r = 0
+    for i, col in enumerate(cols):
+        bit = (e >> i) & 1
+        j = 0
+        while col >> j:
+            if (col >> j) & 1:
+                r = r ^ (bit << j)
+            j += 1
+    return r
+
+
+def _rs_positions_path(nwords, positions):
+    sh, S = mods()
+    use_polymod("real")
+    real = _STATE["real_polymod"]
+    e = SI.var("e", 0, 1023)
+    zeros = [0] * (nwords - 3)
+    codeword = zeros + sh.rs1024_create_checksum(CS, list(zeros))     # a valid share word sequence (concrete)
+    check(bool(sh.rs1024_verify_checksum(CS, list(codeword))), "create_checksum / verify_checksum disagree on the all-zero share")
+    base = real(list(CS) + [0] * nwords)
+    for p in positions:
+        wit = lambda env, p=p: {"kind": "pos", "nwords": nwords, "positions": [p], "errors": [env["e"]]}  # noqa
+        v = [0] * nwords
+        v[p] = e
+        d = real(list(CS) + v) ^ base
+        check(d == _mat_apply(_rs_cols(nwords, p), e), f"position {p}: the syndrome of a single-word error is not the XOR of its bit columns",
+              witness=wit, fresh=True, timeout_ms=120000)
+        cw = list(codeword)
+        cw[p] = cw[p] ^ e
+        ok = sh.rs1024_verify_checksum(CS, cw)
+        check(s_implies(e != 0, s_not(ok)), f"a substitution of word {p} of a {nwords}-word share passes the checksum", witness=wit, fresh=True,
+              timeout_ms=120000)
+    return "ok"
+
+
+def ob_rs_positions(nwords, lo, hi):
+    r = sym_run(lambda: _rs_positions_path(nwords, range(lo, hi)), expect_classes=["ok"], timeout_ms=120000)
+    r["sample"] = {"words": nwords, "positions": f"{lo}..{hi - 1}", "error": "symbolic 10-bit difference at one position"}
+    return r
+
+
+def _gf2_left_inverse(acols, nrows=30):
+    """acols: the columns (ints, nrows bits) of a GF(2) matrix A.  Returns the columns of N with N*A = I (as ints over the
+    len(acols) output bits, one per input bit 0..nrows-1), or None when A has not full column rank.  Untrusted helper: the
+    product N*(A*e) == e is what z3 checks."""
+    m = len(acols)
+    rows = []
+    for i in range(nrows):
+        a = 0
+        for c in range(m):
+            a |= ((acols[c] >> i) & 1) << c
+        rows.append([a, 1 << i])
+    piv = {}
+    r = 0
+    for c in range(m):
+        k = next((j for j in range(r, nrows) if (rows[j][0] >> c) & 1), None)
+        if k is None:
+            return None
+        rows[r], rows[k] = rows[k], rows[r]
+        for j in range(nrows):
+            if j != r and (rows[j][0] >> c) & 1:
+                rows[j][0] ^= rows[r][0]
+                rows[j][1] ^= rows[r][1]
+        piv[c] = r
+        r += 1
+    masks = [rows[piv[c]][1] for c in range(m)]          # masks[c]: which syndrome bits are summed to give input bit c
+    return [sum(((masks[c] >> k) & 1) << c for c in range(m)) for k in range(nrows)]
+
+
+def _rs_detect_path(nwords, sets):
+    """every error pattern on the word positions of a set is detected: with A = [M_p1 | M_p2 | M_p3] (per-position syndrome
+    columns) the harness computes a left inverse N over GF(2) and z3 verifies N*(A*e) == e for the symbolic error symbols e, so
+    a zero syndrome forces e == 0.  Without a left inverse the question `syndrome != 0` goes to z3 directly (and yields a witness)."""
+    sh, S = mods()
+    w = max(len(s) for s in sets)
+    es = [SI.var(f"e{j}", 0, 1023) for j in range(w)]
+    cols = {}
+    for ps in sets:
+        for p in ps:
+            if p not in cols:
+                cols[p] = _rs_cols(nwords, p)
+    for ps in sets:
+        wit = lambda env, ps=ps: {"kind": "pos", "nwords": nwords, "positions": list(ps), "errors": [env[f"e{j}"] for j in range(len(ps))]}  # noqa
+        syn, packed, acols = 0, 0, []
+        for j, (x, p) in enumerate(zip(es, ps)):
+            syn = syn ^ _mat_apply(cols[p], x)
+            packed = packed | (x << (10 * j))
+            acols += cols[p]
+        ninv = _gf2_left_inverse(acols)
+        if ninv is not None:
+            check(_mat_apply(ninv, syn) == packed, f"word positions {list(ps)} of a {nwords}-word share: the error symbols are not a linear function of "
+                                                    f"the syndrome", witness=wit, fresh=True, timeout_ms=120000)
+        else:
+            some = s_or(*[x != 0 for x in es[:len(ps)]])
+            check(s_implies(some, syn != 0), f"errors at word positions {list(ps)} of a {nwords}-word share can cancel in the checksum",
+                  witness=wit, fresh=True, timeout_ms=120000)
+    return "ok"
+
+
+def ob_rs_detect(nwords, weight, chunk, nchunks, sample=None):
+    allsets = list(itertools.combinations(range(nwords), weight))
+    if sample is not None and sample < len(allsets):
+        allsets = _random.Random(nwords * 7 + weight).sample(allsets, sample)
+    sets = allsets[chunk::nchunks]
+    r = sym_run(lambda: _rs_detect_path(nwords, sets), expect_classes=["ok"], timeout_ms=120000, max_violations=12)
+    r["sample"] = {"words": nwords, "positions per set": weight, "sets": len(sets), "of": _comb(nwords, weight),
+                   "errors": "symbolic, not all zero (covers every sub-pattern of the set)"}
+    return r
+
+
+def replay_rs_detect(w):
+    """a valid share word sequence (native create_checksum over pseudo-random data) with the witness's differences applied"""
+    from buidl.shamir import rs1024_create_checksum, rs1024_verify_checksum
+    nwords, ps, es = w["nwords"], w["positions"], w["errors"]
+    rng = _random.Random(5)
+    data = [rng.randrange(1024) for _ in range(nwords - 3)]
+    cw = data + rs1024_create_checksum(CS, list(data))
+    if not rs1024_verify_checksum(CS, list(cw)):
+        return {"violated": True, "observed": "verify_checksum rejects the output of create_checksum"}
+    bad = list(cw)
+    for p, e in zip(ps, es):
+        bad[p] ^= e
+    if bad == cw:
+        return {"violated": False, "observed": "no change"}
+    acc = rs1024_verify_checksum(CS, list(bad))
+    return {"violated": bool(acc), "observed": f"{nwords}-word share indices {cw}: changing positions {ps} by xor {es} gives a sequence that "
+                                               f"{'passes' if acc else 'fails'} the RS1024 checksum"}
